@@ -49,9 +49,16 @@ class SingleWorld:
         r = len(s2)
         cplx = cfg["dtype"] == "complex"
         self.c = 10.0 ** cfg["cexp"]
+        const = bool(cfg.get("constmode"))
+
+        def _U(k):
+            U_ = _orth_to_ones(rng, n, k, cplx)
+            if const:          # the first left singular vector is the normalised constant vector: non-zero sample mean
+                U_ = np.concatenate([np.full((n, 1), 1.0 / np.sqrt(n), dtype=U_.dtype), U_[:, :k - 1]], axis=1)
+            return U_
         if cfg["kind"] == "perm":
             p = r
-            U = _orth_to_ones(rng, n, p, cplx)
+            U = _U(p)
             sg = rng.choice([-1.0, 1.0], size=p)
             if cplx:
                 sg = sg * rng.choice([1, 1j, -1, -1j], size=p)
@@ -59,11 +66,11 @@ class SingleWorld:
         else:
             rr = min(r, n - 1)
             p = (n + 3) if wide else (r + 1)
-            U = _orth_to_ones(rng, n, rr, cplx)
+            U = _U(rr)
             V = _orth(rng, p, rr, cplx)
             Z = (U * np.sqrt(np.array(s2[:rr], float))) @ V.conj().T
         self.p = p
-        self.Z0 = Z * self.c                      # anomalies (zero column means)
+        self.Z0 = Z * self.c                      # anomalies (zero column means unless constmode)
         self.lat = cfg["lp"] != "none"
         self.fname = feat_name or ("lat" if self.lat else "x")
         if self.lat:
